@@ -25,7 +25,7 @@ def run(ctx):
                        "query set of each tree; T: random trees depth <= 4, 3-13 nodes, widths 0/30/300/700. "
                        "non-trivial = tree with a HAMT directory and at least one nested directory or filler entries")
     quick = ctx.quick
-    ctx.tlc_mc("PathResolve", "GenPathResolve.tla", "MCPathResolve.cfg", timeout=1800, coverage=False, deadlock=False, workers=4)
+    ctx.tlc_mc("PathResolve", "GenPathResolve.tla", "MCPathResolve.cfg" if quick else "MCPathResolveThorough.cfg", timeout=1800, coverage=False, deadlock=False, workers=4)
     behs = ctx.tlc_gen("PathResolve", "GenPathResolve.tla", "GenPathResolve.cfg" if quick else "GenPathResolveThorough.cfg",
                        timeout=3400)
     if not behs:
